@@ -509,6 +509,7 @@ ASMJIT_FAVOR_SIZE Error init_func_detail(FuncDetail& func, const FuncSignature& 
               // The address is either passed by a GP register or by stack (always 8 bytes - pointer).
               if (gp_reg_id != Reg::kIdBad) {
                 arg.assign_reg_data(RegType::kGp64, gp_reg_id);
+                func.add_used_regs(RegGroup::kGp, Support::bit_mask<RegMask>(gp_reg_id));
               }
               else {
                 arg.assign_stack_offset(int32_t(stack_offset));
